@@ -25,6 +25,14 @@ agg2     : aggregate and window where a KEY or an `apply` name equals a would-be
 tab-tab+ : table-with-table arithmetic over name pairs that are DIFFERENT stored names sanitising alike ('Price'/'price',
            'unit cost'/'unit_cost', '$$$'/'%', 'a'/'A', 'a '/'a', 'A b'/'a_b', '1x'/'c1x', 'sum'/'sum_'), both orders, alone and
            beside an equal-name / right-absent column pair, all seven operators                -> that column unnamed.
+typed-math: arithmetic and comparisons on the TYPED vectors (date / str / int / float columns, with and without None, each optionally
+           derived by a name-keeping operation): named date vector + int / + bool / + int vector (named, unnamed) / +- timedelta /
+           - date / - date vector / reflected timedelta + and date -; named str vector + str / * int / + str vector / * int vector and the
+           reflected forms; named int / float vectors with every reflected scalar operator (2 + v, 2 - v, ... 2 ** v, 2.5 + v, True + v),
+           list operands on either side, mixed int/float vectors; comparisons with scalars / ISO strings           -> result unnamed,
+           operands keep their names.
+typed-build: tables built from a named typed vector and results of arithmetic on it (Table([d, d + 30]), d >> (d + 30), three
+           columns, dict-free builders)                              -> ['due', None, ...]: no duplicated name.
 
 Oracle: plain lists of names; rules transcribed from the statement.
 """
@@ -542,6 +550,143 @@ def lookalike_tab_tab_cases():
 
 
 # ---------------------------------------------------------------------------------------------
+# arithmetic on the typed subclass vectors (date / str / int / float): results are unnamed
+# ---------------------------------------------------------------------------------------------
+TYPED_DATA = {
+    'date': [date(2024, 1, 31), date(2024, 2, 29), date(2023, 12, 31)],
+    'str': ['a', 'b', 'c'],
+    'int': [3, 1, 2],
+    'float': [1.5, 2.5, 4.0],
+}
+# kind -> [(site label, expression over v (the named vector), k (int vector), w (second vector of v's kind))]
+TYPED_EXPRS = {
+    'date': [('add-int', 'v + 30'), ('add-bool', 'v + True'), ('add-int-vector', 'v + k'), ('add-timedelta', 'v + timedelta(days=1)'),
+             ('sub-timedelta', 'v - timedelta(days=1)'), ('radd-timedelta', 'timedelta(days=1) + v'), ('sub-date', 'v - date(2024, 1, 1)'),
+             ('rsub-date', 'date(2025, 1, 1) - v'), ('sub-date-vector', 'v - w'), ('add-int-list', 'v + [1, 2, 3][:len(v)]'),
+             ('radd-int-vector', 'k + v'),
+             ('eq-date', 'v == date(2024, 1, 31)'), ('lt-iso-string', "v < '2024-02-01'"), ('ge-date-vector', 'v >= w')],
+    'str': [('add-str', "v + 'x'"), ('radd-str', "'x' + v"), ('mul-int', 'v * 2'), ('rmul-int', '2 * v'), ('add-str-vector', 'v + w'),
+            ('mul-int-vector', 'v * k'), ('rmul-int-vector', 'k * v'), ('radd-str-list', "['p', 'q', 'r'][:len(v)] + v"),
+            ('add-str-list', "v + ['p', 'q', 'r'][:len(v)]"), ('eq-str', "v == 'a'"), ('lt-str-vector', 'v < w')],
+    'num': [('radd-int', '2 + v'), ('rsub-int', '2 - v'), ('rmul-int', '2 * v'), ('rtruediv-int', '2 / v'), ('rfloordiv-int', '2 // v'),
+            ('rmod-int', '2 % v'), ('rpow-int', '2 ** v'), ('radd-float', '2.5 + v'), ('rsub-float', '2.5 - v'), ('rmul-float', '2.5 * v'),
+            ('radd-bool', 'True + v'), ('add-int', 'v + 2'), ('truediv-int', 'v / 2'), ('pow-int', 'v ** 2'),
+            ('radd-list', '[1, 2, 3][:len(v)] + v'), ('rsub-list', '[1, 2, 3][:len(v)] - v'), ('add-list', 'v + [1, 2, 3][:len(v)]'),
+            ('add-int-vector', 'v + k'), ('radd-int-vector', 'k + v'), ('mul-float-vector', 'v * x'), ('rmul-float-vector', 'x * v'),
+            ('rlt-int', '2 < v'), ('rge-float', '2.0 >= v')],
+}
+TYPED_EXPRS['int'] = TYPED_EXPRS['float'] = TYPED_EXPRS['num']
+TYPED_NAMES = ['due', 'A b', '', None]
+TYPED_DERIVE = [None, 'copy', 'slice', 'sort', 'vmask', 'write']
+TYPED_BUILD = {
+    'date': [['v + 30'], ['v + k'], ['v + timedelta(days=1)', 'v - timedelta(days=1)'], ['v + 30', 'v + 60'], ['v - w']],
+    'str': [["v + 'x'"], ['v * 2'], ["v + 'x'", "'x' + v"], ['v + w']],
+    'int': [['2 * v'], ['v + v'], ['2 - v', 'v / 2'], ['2 + v', 'v + 2']],
+    'float': [['2 * v'], ['2 - v', 'v ** 2']],
+}
+
+
+def typed_env(kind, name, nulls, derive=None):
+    data = list(TYPED_DATA[kind])
+    if nulls:
+        data[1] = None
+    v = Vector(data, name=name)
+    if derive:
+        v = keep_op(v, derive)
+    n = len(v)
+    env = dict(NS)
+    env.update({'v': v, 'k': Vector([1, 2, 3][:n], name='k'), 'x': Vector([0.5, 1.5, 2.0][:n], name='x'),
+                'w': Vector(list(TYPED_DATA[kind])[::-1][:n], name='w')})
+    return env
+
+
+def typed_cases(tier):
+    q = tier == 'quick'
+    for kind in TYPED_DATA:
+        for name in TYPED_NAMES:
+            for nulls in (False, True):
+                for derive in TYPED_DERIVE:
+                    if q and derive in ('sort', 'vmask') and nulls:
+                        continue
+                    for label, src in TYPED_EXPRS[kind]:
+                        yield {'op': 'typed-math', 'kind': kind, 'name': lit(name), 'nulls': nulls, 'd': derive, 'site': label, 'expr': src}
+                for exprs in TYPED_BUILD[kind]:
+                    for how in ('list', 'rshift', 'vector-ctor', 'table-rshift-vector'):
+                        yield {'op': 'typed-build', 'kind': kind, 'name': lit(name), 'nulls': nulls, 'exprs': exprs, 'how': how}
+
+
+def eval_typed_math(case):
+    name = ev(case['name'])
+    kind = case['kind']
+    try:
+        env = typed_env(kind, name, case['nulls'], case['d'])
+    except Exception:
+        return []
+    v = env['v']
+    what = (f"v = Vector({[None if case['nulls'] and i == 1 else x for i, x in enumerate(TYPED_DATA[kind])]!r}, name={name!r})"
+            + (f'.{case["d"]}' if case['d'] else '') + f" [{type(v).__name__}]; {case['expr']}")
+    if not same_name(v.name, name):
+        return []                                      # the derivation lost the name: vec-keep's business
+    try:
+        r = eval(case['expr'], env)
+    except Exception:
+        return []                                      # the operation is not defined / refused: not a naming question
+    fails = []
+    if not isinstance(r, Vector) or isinstance(r, Table):
+        return fails
+    m = truthful(r)
+    if m:
+        fails.append(Fail(f'C03:Vector.{kind}.{case["site"]}:truthful', f'{what}: {m}'))
+    if r.name is not None:
+        fails.append(Fail(f'C18:Vector.typed-math:{kind}:{case["site"]}:name-not-dropped',
+                          f'{what} is named {r.name!r}; arithmetic and comparisons give unnamed results', None, r.name))
+    if not same_name(v.name, name) or env['k'].name != 'k' or env['w'].name != 'w':
+        fails.append(Fail(f'C18:Vector.typed-math:{kind}:{case["site"]}:operand-renamed',
+                          f'{what}: operands are now named {v.name!r} / {env["k"].name!r} / {env["w"].name!r}', (name, 'k', 'w'),
+                          (v.name, env['k'].name, env['w'].name)))
+    return fails
+
+
+def eval_typed_build(case):
+    name = ev(case['name'])
+    kind, how = case['kind'], case['how']
+    try:
+        env = typed_env(kind, name, case['nulls'])
+        v = env['v']
+        derived = [eval(e, env) for e in case['exprs']]
+    except Exception:
+        return []
+    if not all(isinstance(r, Vector) and not isinstance(r, Table) and len(r) == len(v) for r in derived):
+        return []
+    what = f"v = {type(v).__name__} named {name!r}; {how} of [v, {', '.join(case['exprs'])}]"
+    want = [name] + [None] * len(derived)
+    try:
+        if how == 'list':
+            t = Table([v] + derived)
+        elif how == 'vector-ctor':
+            t = Vector([v] + derived)
+        elif how == 'rshift':
+            t = v
+            for r in derived:
+                t = t >> r
+        else:
+            t = Table([v])
+            for r in derived:
+                t = t >> r
+    except Exception:
+        return []                                      # the builder refusing (e.g. vector >> vector of another kind) is not a naming question
+    if not isinstance(t, Table):
+        return []
+    fails = []
+    m = truthful(t)
+    if m:
+        fails.append(Fail(f'C03:Table.build.{how}:truthful', f'{what}: {m}'))
+    fails += names_fail(f'C18:Table.build.{how}:typed-math-columns:names', what + ' (results of arithmetic are unnamed, so only the first column carries the name)',
+                        want, t)
+    return fails
+
+
+# ---------------------------------------------------------------------------------------------
 def chains(ops, n):
     for ln in range(1, n + 1):
         for c in itertools.product(ops, repeat=ln):
@@ -551,6 +696,7 @@ def chains(ops, n):
 def cases(tier, seed):
     yield from cases_v1(tier, seed)
     yield from cases_v2(tier, seed)
+    yield from typed_cases(tier)
 
 
 def cases_v1(tier, seed):
@@ -630,7 +776,8 @@ def eval_join_empty(case):
 
 
 EVAL = {'vec-keep': eval_vec_keep, 'vec-math': eval_vec_math, 'tab-build': eval_tab_build, 'tab-scalar': eval_tab_scalar,
-        'tab-tab': eval_tab_tab, 'tab-chain': eval_tab_chain, 'agg': eval_agg, 'join-empty': eval_join_empty, 'agg2': eval_agg2}
+        'tab-tab': eval_tab_tab, 'tab-chain': eval_tab_chain, 'agg': eval_agg, 'join-empty': eval_join_empty, 'agg2': eval_agg2,
+        'typed-math': eval_typed_math, 'typed-build': eval_typed_build}
 
 
 def evaluate(case):
@@ -642,6 +789,10 @@ def evaluate(case):
 
 def nontrivial(case):
     op = case['op']
+    if op == 'typed-math':
+        return (op, case['kind'], case['site'], case['name'], case['nulls'], case['d'])
+    if op == 'typed-build':
+        return (op, case['kind'], tuple(case['exprs']), case['how'], case['name'], case['nulls'])
     if op == 'vec-keep':
         return (op, case['data'], case['name'], tuple(case['chain'])) if len(case['chain']) > 1 else None
     if op == 'vec-math':
@@ -662,8 +813,12 @@ if __name__ == '__main__':
          rule='all chains of name-keeping vector operations; all operator x name-pair x derived-operand combinations; all table '
               'builders over all name lists of width <= 3; all chains of structural table operations incl. joins and >>; '
               'table-scalar and table-table arithmetic over all name pairs (incl. pairs differing only in case / spacing / punctuation); '
-              'aggregate/window over key/value name patterns, incl. keys and apply names equal to would-be suffixed output names. '
+              'aggregate/window over key/value name patterns, incl. keys and apply names equal to would-be suffixed output names; '
+              'arithmetic / comparisons on typed date / str / int / float vectors (scalar, reflected scalar, vector, list operands; timedelta) '
+              'give unnamed results and tables built from [v, f(v)] have names [name, None]. '
               'distinct = distinct operation chains / operator-name patterns',
          bound=lambda tier: {'names': len(NAMES), 'vec_chain': 2 if tier == 'quick' else 3, 'tab_chain': 2 if tier == 'quick' else '3 (width<=2), 2 (width 3)',
-                             'tab_width': 2 if tier == 'quick' else 3, 'build_width': 3},
+                             'tab_width': 2 if tier == 'quick' else 3, 'build_width': 3,
+                             'typed_kinds': list(TYPED_DATA), 'typed_exprs': {k: len(v) for k, v in TYPED_EXPRS.items() if k != 'num'},
+                             'typed_names': len(TYPED_NAMES), 'typed_derivations': TYPED_DERIVE},
          nontrivial=nontrivial)
